@@ -1,14 +1,15 @@
 // ---- PART 1 (b): the Lbl (0x0018) / ExternSheet (0x0017) arms and the defined-name post-processing of Xls::parse_workbook (src/xls.rs)
 //
 // The whole function is extracted once more (verbatim; unit xlswb owns its record dispatch, FILEPASS, sheets, cells, formulas, merges).
-// Here it is verified UNDER A HYPOTHESIS (`requires wb_hyp(..)`: every fixed-size read of the globals records is within its record, sheet
-// positions lie in the stream, Dimensions records are ordered) so that no implicit obligation fails in this copy -- the unconditional
-// copy of unit xlswb carries those as registered C06 findings (xlswb.json). Stubs and rewrites mirror unit xlswb.
+// It is verified without any hypothesis (truncated CodePage / Date1904 / ExternSheet / Lbl bodies and sheet positions beyond the stream are
+// rejected with Err by the current text). Stubs and rewrites mirror unit xlswb.
 //
 // Specification ([MS-XLS] 2.4.150 Lbl, 2.4.105 ExternSheet, 2.5.277 XTI, 2.5.296 XLUnicodeStringNoCch):
 //   lbls_of(recs, ..)   one entry per Lbl record, in record order: the name (cch characters decoded with the code page in force at that
-//                       record) and the reference its formula (the cce bytes behind the name) stands for
-//   xtis_of(recs)       the XTI table: the first cXTI 6-byte entries of every ExternSheet record, in record order
+//                       record) and the reference its formula (the cce bytes behind the name) stands for -- for records that are exactly
+//                       their fields (`lbl_wf`)
+//   xtis_of(recs)       the XTI table: the first cXTI 6-byte entries of every ExternSheet record (as many of them as the record holds
+//                       completely), in record order
 //   final_text(..)      "<sheet name>!<reference>" with the sheet name of BoundSheet8 number XTI[ixti].itabFirst, "#REF" when ixti or
 //                       itabFirst is out of range; the bare text when the formula names no sheet
 
@@ -54,27 +55,33 @@ impl Clone for Sheet {
 }
 
 // ---- std functions without a vstd specification
-// TRUSTED: `s.chunks(n)` panics iff n == 0; the iterator yields consecutive, non-overlapping sub-slices of n elements taken from the
-// front of what remains, the last one possibly shorter; `None` once nothing remains (core::slice::chunks documentation). (as in unit xlsrec)
+// TRUSTED: `s.chunks_exact(n)` panics iff n == 0; the iterator yields consecutive, non-overlapping sub-slices of exactly n elements taken
+// from the front of what remains; `None` once fewer than n elements remain -- a shorter tail is never handed out (core::slice::chunks_exact
+// documentation). (as in unit xlswb)
 #[verifier::external_type_specification] #[verifier::external_body] #[verifier::reject_recursive_types(T)]
-pub struct ExChunks<'a, T: 'a>(Chunks<'a, T>);
+pub struct ExChunksExact<'a, T: 'a>(ChunksExact<'a, T>);
 /// elements not yet handed out
-pub uninterp spec fn chunks_rem<T>(c: Chunks<'_, T>) -> Seq<T>;
+pub uninterp spec fn chunks_rem<T>(c: ChunksExact<'_, T>) -> Seq<T>;
 /// chunk size
-pub uninterp spec fn chunks_size<T>(c: Chunks<'_, T>) -> int;
-pub open spec fn chunk_take<T>(c: Chunks<'_, T>) -> int {
-    if chunks_size(c) <= chunks_rem(c).len() { chunks_size(c) } else { chunks_rem(c).len() as int }
-}
-pub assume_specification<'a, T>[ <[T]>::chunks ](s: &'a [T], n: usize) -> (r: Chunks<'a, T>)
+pub uninterp spec fn chunks_size<T>(c: ChunksExact<'_, T>) -> int;
+pub assume_specification<'a, T>[ <[T]>::chunks_exact ](s: &'a [T], n: usize) -> (r: ChunksExact<'a, T>)
     requires n != 0,
     ensures chunks_rem(r) == s@, chunks_size(r) == n;
-pub assume_specification<'a, T>[ <Chunks<'a, T> as Iterator>::next ](c: &mut Chunks<'a, T>) -> (r: Option<&'a [T]>)
+pub assume_specification<'a, T>[ <ChunksExact<'a, T> as Iterator>::next ](c: &mut ChunksExact<'a, T>) -> (r: Option<&'a [T]>)
     ensures
         chunks_size(*final(c)) == chunks_size(*old(c)),
-        chunks_rem(*old(c)).len() == 0 ==> r is None && chunks_rem(*final(c)) == chunks_rem(*old(c)),
-        chunks_rem(*old(c)).len() > 0 ==> r is Some
-            && r->Some_0@ == chunks_rem(*old(c)).take(chunk_take(*old(c)))
-            && chunks_rem(*final(c)) == chunks_rem(*old(c)).skip(chunk_take(*old(c)));
+        chunks_rem(*old(c)).len() < chunks_size(*old(c)) ==> r is None && chunks_rem(*final(c)) == chunks_rem(*old(c)),
+        chunks_rem(*old(c)).len() >= chunks_size(*old(c)) ==> r is Some
+            && r->Some_0@ == chunks_rem(*old(c)).take(chunks_size(*old(c)))
+            && chunks_rem(*final(c)) == chunks_rem(*old(c)).skip(chunks_size(*old(c)));
+// TRUSTED: documented behaviour of std::cmp::min (generic over Ord; the only instantiation used is usize, whose order is the integer order)
+pub uninterp spec fn min_spec<T>(a: T, b: T) -> T;
+#[verifier::external_body]
+pub broadcast proof fn axiom_min_usize(a: usize, b: usize)
+    ensures #[trigger] min_spec(a, b) == (if a <= b { a } else { b }),
+{}
+pub assume_specification<T: Ord>[ std::cmp::min::<T> ](a: T, b: T) -> (r: T)
+    ensures r == min_spec(a, b);
 /// the items an `IntoIterator` value hands out, in order
 pub uninterp spec fn iter_items<T, I>(i: I) -> Seq<T>;
 // TRUSTED: `Vec::extend` appends the items of the iterator in order (alloc::vec documentation)
@@ -225,8 +232,7 @@ impl<T: CellType> Cell<T> {
     #[verifier::external_body] pub fn new(position: (u32, u32), value: T) -> (c: Cell<T>) { unimplemented!() }
 }
 impl<T: CellType> Range<T> {
-    // TRUSTED: stub without contract. The documented precondition of from_sparse ("cells sorted by row") is examined in unit xlswb (registered finding
-    // C06.from_sparse_rows_sorted); no clause of this unit depends on the ranges built
+    // TRUSTED: stub without contract (unit range: no precondition); no clause of this unit depends on the ranges built
     #[verifier::external_body] pub fn from_sparse(cells: Vec<Cell<T>>) -> (r: Range<T>) { unimplemented!() }
 }
 
@@ -305,8 +311,10 @@ pub open spec fn lbl_nb(d: Seq<u8>) -> int { lbl_cch(d) * str_width(lbl_wide(d))
 pub open spec fn lbl_wf(d: Seq<u8>) -> bool { d.len() >= 15 && d.len() == 15 + lbl_nb(d) + lbl_cce(d) }
 pub open spec fn lbl_name(e: XlsEncoding, d: Seq<u8>) -> Seq<char> { str_text(e, lbl_wide(d), d.skip(15), lbl_cch(d)) }
 pub open spec fn lbl_rgce(d: Seq<u8>) -> Seq<u8> { d.subrange(15 + lbl_nb(d), 15 + lbl_nb(d) + lbl_cce(d)) }
-/// one defined name: its text and its formula
-pub struct LblV { pub name: Seq<char>, pub rgce: Seq<u8> }
+/// one defined name: is the record exactly its fields; then: its text and its formula
+pub struct LblV { pub wf: bool, pub name: Seq<char>, pub rgce: Seq<u8> }
+/// what the reader accepts: the 14 fixed bytes and room for the cce formula bytes (anything less is rejected with Err)
+pub open spec fn lbl_accepted(d: Seq<u8>) -> bool { d.len() >= 14 && d.len() >= 14 + lbl_cce(d) }
 /// the formulas whose meaning this unit pins down (module dn: C16.empty_rgce, ref3d_text, area3d_text, referr3d_text, areaerr3d_text):
 /// empty, or a complete first token PtgRef3d / PtgArea3d / PtgRefErr3d / PtgAreaErr3d
 pub open spec fn dn_known(r: Seq<u8>) -> bool {
@@ -329,7 +337,7 @@ pub open spec fn lbls_of(rs: Seq<RecV>, g0: GS, forced: Option<u16>) -> Seq<LblV
 {
     if rs.len() == 0 { Seq::empty() }
     else if rs.last().typ == 0x0018 {
-        lbls_of(rs.drop_last(), g0, forced).push(LblV { name: lbl_name(g_fold(rs.drop_last(), g0, forced).enc, rs.last().data), rgce: lbl_rgce(rs.last().data) })
+        lbls_of(rs.drop_last(), g0, forced).push(LblV { wf: lbl_wf(rs.last().data), name: lbl_name(g_fold(rs.drop_last(), g0, forced).enc, rs.last().data), rgce: lbl_rgce(rs.last().data) })
     } else { lbls_of(rs.drop_last(), g0, forced) }
 }
 /// [MS-XLS] 2.5.277 XTI: iSupBook (2 bytes), itabFirst (2, signed), itabLast (2, signed)
@@ -339,8 +347,10 @@ spec fn xti_at(d: Seq<u8>, o: int) -> Xti {
 }
 /// ExternSheet: cXTI (2 bytes), then cXTI XTI structures
 pub open spec fn xs_cxti(d: Seq<u8>) -> int { u16_at(d, 0) }
-pub open spec fn xs_wf(d: Seq<u8>) -> bool { d.len() >= 2 && d.len() >= 2 + 6 * xs_cxti(d) }
-spec fn xs_entries(d: Seq<u8>) -> Seq<Xti> { Seq::new(xs_cxti(d) as nat, |k: int| xti_at(d, 2 + 6 * k)) }
+/// number of entries: cXTI, but no more than the record holds completely (a longer table continues in Continue records, which are not
+/// read; the BIFF5 record of the same number has another layout)
+pub open spec fn xs_count(d: Seq<u8>) -> int { if xs_cxti(d) <= (d.len() - 2) / 6 { xs_cxti(d) } else { (d.len() - 2) / 6 } }
+spec fn xs_entries(d: Seq<u8>) -> Seq<Xti> { if d.len() >= 2 { Seq::new(xs_count(d) as nat, |k: int| xti_at(d, 2 + 6 * k)) } else { Seq::empty() } }
 /// the XTI table: the entries of every ExternSheet record, in record order
 spec fn xtis_of(rs: Seq<RecV>) -> Seq<Xti>
     decreases rs.len()
@@ -367,14 +377,15 @@ spec fn final_text(xtis: Seq<Xti>, sheets: Seq<(usize, String)>, ixti: Option<us
 }
 /// what the globals loop has collected: one entry per Lbl record so far
 spec fn lbl_acc(v: Seq<(String, (Option<usize>, String))>, ls: Seq<LblV>) -> bool {
-    v.len() == ls.len() && forall|k: int| 0 <= k < v.len() ==> (#[trigger] v[k]).0@ == ls[k].name
+    v.len() == ls.len() && forall|k: int| 0 <= k < v.len() && ls[k].wf ==> (#[trigger] v[k]).0@ == ls[k].name
         && (dn_known(ls[k].rgce) ==> v[k].1.0 == dn_val(ls[k].rgce).0 && v[k].1.1@ == dn_val(ls[k].rgce).1)
 }
 spec fn xti_acc(v: Seq<Xti>, xs: Seq<Xti>) -> bool { v == xs }
 /// `metadata.names`: one entry per Lbl record, in order: (name, reference text prefixed with its sheet)
-/// (the reference text is pinned down for the formulas of `dn_known` whose XTI entry, if any, points into this workbook)
+/// (name and reference are pinned down for the Lbl records that are exactly their fields; the reference text for the formulas of
+/// `dn_known` whose XTI entry, if any, points into this workbook)
 spec fn names_final(names: Seq<(String, String)>, ls: Seq<LblV>, xtis: Seq<Xti>, sheets: Seq<(usize, String)>, sb: Seq<Seq<u8>>) -> bool {
-    names.len() == ls.len() && forall|k: int| 0 <= k < names.len() ==> (#[trigger] names[k]).0@ == ls[k].name
+    names.len() == ls.len() && forall|k: int| 0 <= k < names.len() && ls[k].wf ==> (#[trigger] names[k]).0@ == ls[k].name
         && (dn_known(ls[k].rgce) && ixti_internal(dn_val(ls[k].rgce).0, xtis, sb) ==> names[k].1@ == final_text(xtis, sheets, dn_val(ls[k].rgce).0, dn_val(ls[k].rgce).1))
 }
 spec fn ixti_internal(ixti: Option<usize>, xtis: Seq<Xti>, sb: Seq<Seq<u8>>) -> bool {
@@ -401,32 +412,10 @@ spec fn dn_post(out: Seq<(String, String)>, inp: Seq<(String, (Option<usize>, St
     out.len() == inp.len() && forall|j: int| 0 <= j < out.len() ==> #[trigger] dn_post_at(out, inp, xtis, sheets, j)
 }
 
-// ---- the hypothesis under which this copy of parse_workbook is verified (what the unconditional copy in unit xlswb reports as findings)
-/// fixed-size reads of the globals arms stay within the record
-pub open spec fn glob_rec_wf(v: RecV) -> bool {
-    ((v.typ == 0x0042 || v.typ == 0x0022) ==> v.data.len() >= 2) && (v.typ == 0x0017 ==> xs_wf(v.data)) && (v.typ == 0x0018 ==> lbl_wf(v.data))
-}
-pub open spec fn globals_wf(rs: Seq<RecV>) -> bool { forall|i: int| 0 <= i < rs.len() ==> glob_rec_wf(#[trigger] rs[i]) }
-/// Dimensions records of a sheet substream give first <= last
-pub open spec fn dims_legal(rs: Seq<RecV>) -> bool {
-    forall|i: int| 0 <= i < rs.len() && (#[trigger] rs[i]).typ == 0x0200 ==> (dims_of(rs[i].data) matches Some(d) ==> d.start.0 <= d.end.0 && d.start.1 <= d.end.1)
-}
-/// every BoundSheet8 position lies within the stream
-spec fn sheets_wf(list: Seq<(usize, String)>, s: Seq<u8>) -> bool {
-    forall|i: int| 0 <= i < list.len() ==> (#[trigger] list[i]).0 <= s.len() && dims_legal(recs(sub_at(s, list[i].0)))
-}
-spec fn wb_hyp(s: Seq<u8>, forced: Option<u16>) -> bool { globals_wf(recs(s)) && sheets_wf(names_of(gsem(s, forced).sheets), s) }
-/// witnesses of the remaining `requires`: <[T]>::chunks n != 0 (the only call site passes 6); read_u16 / read_i16 (common/bytes.rs): 2 bytes
+/// witnesses of the `requires` of the callees: <[T]>::chunks_exact n != 0 (the only call site passes 6); read_u16 / read_i16 (common/bytes.rs): 2 bytes
 proof fn witness_requires() {
     assert(6usize != 0);
     assert(seq![1u8, 0u8].len() >= 2);
-}
-/// the hypothesis is satisfiable: e.g. every stream whose globals substream holds no record
-proof fn witness_wb_hyp(s: Seq<u8>, forced: Option<u16>)
-    requires recs(s).len() == 0,
-    ensures wb_hyp(s, forced),
-{
-    assert(names_of(gsem(s, forced).sheets).len() == 0);
 }
 
 //@@ impl src/xls.rs Xls nth=1
@@ -436,10 +425,6 @@ proof fn witness_wb_hyp(s: Seq<u8>, forced: Option<u16>)
 //@@ replace /let stream = (cfb\s*\.get_stream\([^;]*?\))\s*\.or_else\(\|_\|\s*([^;]*)\)\?;/ (as in unit xlswb) Verus rejects closures that capture `&mut` variables (cfb, reader); `a.or_else(|_| b)` is by definition `match a { Ok(v) => Ok(v), Err(_) => b }` (core::result)
 let stream = (match \g<1> { Ok(__v) => Ok(__v), Err(_) => \g<2> })?;
 //@@ sig
-    requires
-        // no fixed-size read of the globals arms leaves its record, sheet positions lie in the stream, Dimensions records are ordered
-        // (the unconditional copy of this function is in unit xlswb; what happens otherwise is registered there: xlswb.json, C06)
-        wb_stream(__p_cfb, __p_reader) matches Some(s) ==> wb_hyp(s, old(self).options.force_codepage),
     ensures
         //# C16.xls_defined_names_one_per_lbl_in_order
         res is Ok ==> (wb_stream(__p_cfb, __p_reader) matches Some(s) && names_final(final(self).metadata.names@,
@@ -460,7 +445,6 @@ let stream = (match \g<1> { Ok(__v) => Ok(__v), Err(_) => \g<2> })?;
                     cur == __it0.s(),
                     wb_stream(__p_cfb, __p_reader) == Some(s0),
                     self.options.force_codepage == forced,
-                    globals_wf(recs(s0)),
                     g_fold(done, g0, forced).enc == encoding && g_fold(done, g0, forced).biff == biff,
                     sheet_names@ == names_of(g_fold(done, g0, forced).sheets),
                     //# C16.lbl_records_collected_in_order
@@ -482,7 +466,6 @@ let stream = (match \g<1> { Ok(__v) => Ok(__v), Err(_) => \g<2> })?;
                         assert(recs(s0) =~= done + recs(__it0.s()));
                         assert(done.drop_last() =~= done_in);
                         assert(recs(s0)[done.len() - 1] == v);
-                        assert(glob_rec_wf(v));
                         assert(g_fold(done, g0, forced) == g_step(g_fold(done_in, g0, forced), v, forced));
                         lemma_sheets_push(g_fold(done_in, g0, forced).sheets, sheet_of(v, encoding, biff)->Some_0);
                         assert(v.typ != 0x0018 ==> lbls_of(done, g0, forced) == lbls_of(done_in, g0, forced));
@@ -493,43 +476,47 @@ let stream = (match \g<1> { Ok(__v) => Ok(__v), Err(_) => \g<2> })?;
 //@@ before /let cch = /
                         proof {
                             let d = v.data;
-                            assert(lbl_wf(d));
                             assert(d.subrange(4, d.len() as int)[0] == d[4] && d.subrange(4, d.len() as int)[1] == d[5]);
                         }
 //@@ before /let rgce = &r\.data/
                         proof {
                             let d = v.data;
-                            let buf = d.subrange(14, d.len() as int);
-                            assert(buf[0] == d[14]);
-                            assert(buf.skip(1) =~= d.skip(15));
+                            //# C16.lbl_shorter_than_its_fields_rejected
+                            assert(lbl_accepted(d));
                             assert(cce == lbl_cce(d) && cch == lbl_cch(d));
-                            assert(lbl_nb(d) >= 0) by (nonlinear_arith) requires lbl_nb(d) == lbl_cch(d) * str_width(lbl_wide(d)), lbl_cch(d) >= 0, 1 <= str_width(lbl_wide(d)) <= 2;
-                            assert(str_fits(lbl_wide(d), d.skip(15), lbl_cch(d)));
-                            assert(name@ =~= lbl_name(encoding, d));
+                            if lbl_wf(d) {
+                                let buf = d.subrange(14, d.len() as int);
+                                assert(buf[0] == d[14]);
+                                assert(buf.skip(1) =~= d.skip(15));
+                                assert(lbl_nb(d) >= 0) by (nonlinear_arith) requires lbl_nb(d) == lbl_cch(d) * str_width(lbl_wide(d)), lbl_cch(d) >= 0, 1 <= str_width(lbl_wide(d)) <= 2;
+                                assert(str_fits(lbl_wide(d), d.skip(15), lbl_cch(d)));
+                                assert(name@ =~= lbl_name(encoding, d));
+                            }
                         }
 //@@ after /defined_names\.push\([^;]*;/
                         proof {
                             let d = v.data;
-                            assert(rgce@ =~= lbl_rgce(d));
-                            let e = LblV { name: lbl_name(encoding, d), rgce: lbl_rgce(d) };
+                            if lbl_wf(d) { assert(rgce@ =~= lbl_rgce(d)); }
+                            let e = LblV { wf: lbl_wf(d), name: lbl_name(encoding, d), rgce: lbl_rgce(d) };
                             assert(lbls_of(done, g0, forced) == lbls_of(done_in, g0, forced).push(e));
                             assert(defined_names@ == dn_in.push((name, formula)));
-                            assert forall|k: int| 0 <= k < defined_names@.len() implies (#[trigger] defined_names@[k]).0@ == lbls_of(done, g0, forced)[k].name
+                            assert forall|k: int| 0 <= k < defined_names@.len() && lbls_of(done, g0, forced)[k].wf implies (#[trigger] defined_names@[k]).0@ == lbls_of(done, g0, forced)[k].name
                                 && (dn_known(lbls_of(done, g0, forced)[k].rgce) ==> defined_names@[k].1.0 == dn_val(lbls_of(done, g0, forced)[k].rgce).0
                                     && defined_names@[k].1.1@ == dn_val(lbls_of(done, g0, forced)[k].rgce).1) by {
                                 if k < dn_in.len() { assert(defined_names@[k] == dn_in[k]); }
                             }
                         }
-//@@ replace /xtis\.extend\((.*?)\s*\.chunks\((.*?)\)\s*\.take\((.*?)\)\s*\.map\(\|xti\| (Xti \{.*?\})\)\);/ `v.extend(s.chunks(n).take(c).map(|x| E))` is rewritten to its documented meaning (core::iter::Take: at most c items, the counter is tested before the inner iterator is asked; Map: E for each item; Vec::extend: pushed in order) as an explicit loop over the same `chunks` iterator, because Verus has no specification hook for the provided adapters `take` and `map` of the foreign iterator `Chunks`. The closure body E is re-inserted verbatim (\g<4>) and is verified.
+//@@ replace /xtis\.extend\((.*?)\s*\.chunks_exact\((.*?)\)\s*\.take\((.*?)\)\s*\.map\(\|xti\| (Xti \{.*?\})\)\);/ `v.extend(s.chunks_exact(n).take(c).map(|x| E))` is rewritten to its documented meaning (core::iter::Take: at most c items, the counter is tested before the inner iterator is asked; Map: E for each item; Vec::extend: pushed in order) as an explicit loop over the same `chunks_exact` iterator, because Verus has no specification hook for the provided adapters `take` and `map` of the foreign iterator `ChunksExact`. The closure body E is re-inserted verbatim (\g<4>) and is verified.
 { let ghost __d = r.data@; let ghost __x0 = xtis@;
-                        proof { assert(xs_wf(__d)); assert(__d.subrange(0, __d.len() as int) =~= __d); }
-                        let __take: usize = \g<3>; let mut __ch = \g<1>.chunks(\g<2>); let mut __n: usize = 0;
+                        proof { assert(__d.len() >= 2); assert(__d.subrange(0, __d.len() as int) =~= __d); }
+                        let __take: usize = \g<3>; let mut __ch = \g<1>.chunks_exact(\g<2>); let mut __n: usize = 0;
                         proof { assert(chunks_rem(__ch) =~= __d.skip(2)); assert(xs_entries(__d).take(0) =~= Seq::<Xti>::empty()); assert(xtis@ =~= __x0 + xs_entries(__d).take(0)); }
                         loop
                             invariant_except_break
                                 xtis@ == __x0 + xs_entries(__d).take(__n as int),
                             invariant
-                                __n <= __take, __take == xs_cxti(__d), xs_wf(__d), chunks_size(__ch) == 6,
+                                __n <= __take, __take == xs_cxti(__d), __d.len() >= 2, chunks_size(__ch) == 6,
+                                __n <= xs_count(__d),
                                 chunks_rem(__ch) == __d.skip(2 + 6 * __n),
                             ensures
                                 xtis@ == __x0 + xs_entries(__d),
@@ -538,9 +525,13 @@ let stream = (match \g<1> { Ok(__v) => Ok(__v), Err(_) => \g<2> })?;
                             if __n >= __take { proof { assert(xs_entries(__d).take(__n as int) =~= xs_entries(__d)); } break; }
                             let ghost __xin = xtis@;
                             match __ch.next() {
-                                None => { proof { assert(false); } break; }
+                                None => { proof {
+                                    //# C16.xti_table_ends_with_last_complete_entry
+                                    assert(__n == xs_count(__d));
+                                    assert(xs_entries(__d).take(__n as int) =~= xs_entries(__d)); } break; }
                                 Some(xti) => {
                                     proof {
+                                        assert(__n < xs_count(__d));
                                         assert(xti@ =~= __d.subrange(2 + 6 * __n, 8 + 6 * __n));
                                         assert(xti@.subrange(0, 2) =~= __d.subrange(2 + 6 * __n, 4 + 6 * __n));
                                         assert(xti@.subrange(2, 4) =~= __d.subrange(4 + 6 * __n, 6 + 6 * __n));
@@ -616,7 +607,7 @@ let defined_names = { let ghost __dn0 = defined_names@; let ghost __xt = xtis@; 
         proof {
             assert(dn_post(defined_names@, dn_pre, xtis@, sheet_names@));
             assert(lbl_acc(dn_pre, lb));
-            assert forall|k: int| 0 <= k < defined_names@.len() implies (#[trigger] defined_names@[k]).0@ == lb[k].name
+            assert forall|k: int| 0 <= k < defined_names@.len() && lb[k].wf implies (#[trigger] defined_names@[k]).0@ == lb[k].name
                 && (dn_known(lb[k].rgce) && ixti_internal(dn_val(lb[k].rgce).0, xtis@, supbooks_of(done)) ==> defined_names@[k].1@ == final_text(xtis@, sheet_names@, dn_val(lb[k].rgce).0, dn_val(lb[k].rgce).1)) by {
                 assert(dn_post_at(defined_names@, dn_pre, xtis@, sheet_names@, k));
                 assert(dn_pre[k].0@ == lb[k].name);
@@ -629,7 +620,7 @@ let defined_names = { let ghost __dn0 = defined_names@; let ghost __xt = xtis@; 
         let ghost dn_all = defined_names@;
 //@@ loop 1 it
                 invariant
-                    it.seq() == names0, s0 == stream@, sheets_wf(names0, s0),
+                    it.seq() == names0, s0 == stream@,
                     defined_names@ == dn_all,
 //@@ before /let mut cells = Vec::new/
             let ghost k = it.index@ as int;
@@ -646,7 +637,7 @@ let defined_names = { let ghost __dn0 = defined_names@; let ghost __xt = xtis@; 
                 invariant_except_break
                     recs(sub) == sdone + recs(__it2.s()),
                 invariant
-                    scur == __it2.s(), dims_legal(recs(sub)),
+                    scur == __it2.s(),
                 decreases __it2.s().len(),
 //@@ after /let r = record\?;/
                 let ghost v = r.v();
